@@ -588,7 +588,7 @@ pub fn run(ctx: &Ctx, rep: &mut Report) {
         ctx,
         rep,
         "requests-without-block1-around-the-budget",
-        "requests without a Block1 option whose payload puts the encoded size just below / at / above the budget: larger than the budget -> 4.13 with a Block1 hint and not processed; fitting with more than 12 bytes to spare -> processed unchanged; in between either; non-trivial = not in the comfortable zone",
+        "requests without a Block1 option whose payload puts the encoded size just below / at / above the budget: larger than the budget -> 4.13 with a Block1 hint and not processed; fitting with more than 12 bytes to spare -> processed unchanged; in between either; budgets up to 1280 and, in a fifth of the cases, up to 5000 bytes (bodies up to 5000); non-trivial = not in the comfortable zone",
         n,
         || {
             (
@@ -600,7 +600,7 @@ pub fn run(ctx: &Ctx, rep: &mut Report) {
                     (proptest::sample::select(vec![12u16, 17, 60, 2048]), proptest::collection::vec(any::<u8>(), 0..12)),
                     0..3,
                 ),
-                prop_oneof![Just(0u8), Just(1), Just(2), Just(3)],
+                prop_oneof![Just(0u8), Just(1), Just(2), Just(3), Just(4)],
                 0usize..1200,
                 -16i32..=16,
                 any::<u16>(),
@@ -628,6 +628,13 @@ pub fn run(ctx: &Ctx, rep: &mut Report) {
                         1 => {
                             let budget = overhead + 28 + (r as usize % 64);
                             (budget, plen % 200)
+                        }
+                        // budgets above 1280 bytes (the statement does not bound
+                        // them; bodies go up to 5000 bytes): payload around the budget
+                        4 => {
+                            let budget = (1281 + (r as usize * 7) % 3740).min(5000 + overhead - 20);
+                            let p = (budget as i32 - overhead as i32 - 6 + off).clamp(0, 5000) as usize;
+                            (budget, p)
                         }
                         // requests larger than any permitted message (over 1280 bytes)
                         3 => ((overhead + 28 + r as usize % 1300).min(1280).max(overhead + 28), 1200 + plen % 900),
